@@ -148,6 +148,18 @@ def subst(t, env):
         return ('opaque', txt)
     return t
 
+AMBIG = {}      # ADT name defined in several modules of the repository -> set of defining module names
+
+def path_conflict(a, b):
+    """two path names with the same last segment that name different definitions (different defining modules)"""
+    n = base_name(('path', a, ()))
+    mods = AMBIG.get(n)
+    if not mods:
+        return False
+    sa = set(re.sub(r'<.*?>', '', a).split('::')[:-1]) & mods
+    sb = set(re.sub(r'<.*?>', '', b).split('::')[:-1]) & mods
+    return bool(sa) and bool(sb) and sa.isdisjoint(sb)
+
 def unify(pat, t, params, env):
     """match pattern type `pat` (mentioning type parameters `params`) against concrete `t`.
     Path names are compared by last segment (MIR prints trimmed or full paths inconsistently)."""
@@ -161,6 +173,8 @@ def unify(pat, t, params, env):
         return False
     if k == 'path':
         if base_name(pat) != base_name(t):
+            return False
+        if AMBIG and path_conflict(pat[1], t[1]):
             return False
         if len(pat[2]) != len(t[2]):
             # generic defaults (HashSet<T, S>) or elided args: accept when one side is unspecified
